@@ -2,6 +2,7 @@ package streams
 
 import (
 	"math"
+	"sort"
 	"strings"
 
 	"go.mongodb.org/mongo-driver/bson"
@@ -222,7 +223,27 @@ func init() {
 					doc = append(bson.D{{Key: "_id", Value: id}}, doc...)
 				}
 			}
+			if r.P(25) && len(doc) > 0 {
+				// sibling fields whose names are textual (not dotted) prefixes of each other: a / ax / a1, also one level down
+				doc = append(bson.D{}, doc...)
+				e := doc[r.N(len(doc))]
+				if e.Key != "_id" {
+					doc = append(doc, bson.E{Key: e.Key + []string{"x", "1", "_"}[r.N(3)], Value: r.Value(1, false)})
+				}
+				for i, f := range doc {
+					if sub, ok := f.Value.(bson.D); ok && len(sub) > 0 && r.P(60) {
+						sub = append(bson.D{}, sub...)
+						sub = append(sub, bson.E{Key: sub[r.N(len(sub))].Key + "x", Value: r.Scalar()})
+						doc[i].Value = sub
+						break
+					}
+				}
+			}
 			proj := Projection(r, doc, malformed)
+			if r.P(10) && len(proj) >= 2 {
+				// shorter name first
+				sort.SliceStable(proj, func(i, j int) bool { return len(proj[i].Key) < len(proj[j].Key) })
+			}
 			req := `{"op":"project","d":` + vj.Enc(doc) + `,"p":` + vj.Enc(proj) + `}`
 			stored := bsonkit.Clone(&doc)
 			before := vj.Enc(*stored)
@@ -307,6 +328,44 @@ func init() {
 				if inclusion {
 					d := doc
 					if res, err := mongokit.Project(bsonkit.Clone(&d), &proj); err == nil {
+						// every plainly included path that exists in the document is in the result with the stored value
+						// (paths touched by an operator overlay at, below or above them are left to the other monitors)
+						for _, e := range proj {
+							flagOn := false
+							switch v := e.Value.(type) {
+							case bool:
+								flagOn = v
+							case bson.D:
+							default:
+								flagOn = bsonkit.Compare(v, int64(1)) == 0
+							}
+							if !flagOn || e.Key == "" || e.Key == "_id" {
+								continue
+							}
+							overlaid := false
+							for _, o := range proj {
+								// the same key given twice, or a parent/child pair: the later entry decides; not judged here
+								if &o != &e && (o.Key == e.Key && vj.Enc(o.Value) != vj.Enc(e.Value) || strings.HasPrefix(o.Key, e.Key+".") || strings.HasPrefix(e.Key, o.Key+".")) {
+									overlaid = true
+								}
+							}
+							for _, o := range proj {
+								if od, ok := o.Value.(bson.D); ok && len(od) > 0 && strings.HasPrefix(od[0].Key, "$") {
+									if o.Key == e.Key || strings.HasPrefix(o.Key, e.Key+".") || strings.HasPrefix(e.Key, o.Key+".") {
+										overlaid = true
+									}
+								}
+							}
+							if overlaid {
+								continue
+							}
+							if want := bsonkit.Get(&doc, e.Key); want != bsonkit.Missing {
+								if got := bsonkit.Get(res, e.Key); got == bsonkit.Missing || vj.Enc(got) != vj.Enc(want) {
+									c.Viols = append(viols, run.Violation{Property: "C14", What: "an included path that exists in the document is missing from (or differs in) the result", Witness: "project-missing-included", Req: req, Detail: e.Key})
+									return []run.Case{c}
+								}
+							}
+						}
 						for _, e := range *res {
 							if !requested[e.Key] {
 								c.Viols = append(viols, run.Violation{Property: "C14", What: "inclusion-style projection returns a field that was not requested", Witness: "project-extra-field", Req: req, Detail: e.Key})
